@@ -19,7 +19,7 @@ def gen(tier, rng, shard, nshards):
     for i in range(n):
         dtm = S.pick(rng, DTMODES)
         clean = rng.random() < 0.9
-        o = S.Opts(dtmode=dtm, clean=clean, max_dim=int(S.pick(rng, [4, 6, 8, 12])))
+        o = S.Opts(dtmode=dtm, clean=clean, max_dim=int(S.pick(rng, [4, 6, 8, 12])), routines=0.08)
         depth = int(S.pick(rng, [0, 1, 1, 2, 2, 3, 4]))
         node = S.gen_tree(rng, depth, o)
         if rng.random() < 0.06:
